@@ -931,13 +931,18 @@ class Frame(object):
         # Offsets are rounded outwards, so that narrow or slowly drifting
         # signals are never left with an empty box.
         px_width_offset = int(np.ceil(2 * width / self.df))
-        px_drift_offset = self.dt * (self.tchans - 1) * drift_rate / self.df
+        # The path is evaluated on the frame's own time axis, which need not
+        # start at 0 (e.g. a consolidated cadence)
+        px_first_offset = drift_rate * self.ts[0] / self.df
+        px_last_offset = drift_rate * self.ts[-1] / self.df
         if doppler_smearing:
-            px_drift_offset += drift_rate * self.dt / self.df
+            px_last_offset += drift_rate * self.dt / self.df
 
-        bounding_start_index = (start_index + int(np.floor(min(px_drift_offset, 0)))
+        bounding_start_index = (start_index 
+                                + int(np.floor(min(px_first_offset, px_last_offset)))
                                 - px_width_offset)
-        bounding_stop_index = (start_index + int(np.ceil(max(px_drift_offset, 0)))
+        bounding_stop_index = (start_index 
+                               + int(np.ceil(max(px_first_offset, px_last_offset)))
                                + px_width_offset + 1)
 
         bounding_min_index = max(bounding_start_index, 0)
